@@ -41,12 +41,13 @@ pub unsafe fn cloned<D: Digest + Clone>(msg: *const u8, len: usize, c1: usize, o
     put(out2, &c.finalize());
     put(out3, &d.finalize());
 }
-/// reset after junk[..c1] then hash msg; and finalize_reset after junk then hash msg
+/// reset after junk[..c1] then hash msg; finalize_reset (Digest: finalises a clone) after junk then hash msg;
+/// finalize_fixed_reset (FixedOutput: finalises IN PLACE, then resets) after junk then hash msg
 #[inline(always)]
-pub unsafe fn reused<D: Digest>(msg: *const u8, len: usize, junk: *const u8, c1: usize, out1: *mut u8, out2: *mut u8) {
+pub unsafe fn reused<D: Digest + digest::FixedOutput + digest::Reset>(msg: *const u8, len: usize, junk: *const u8, c1: usize, out1: *mut u8, out2: *mut u8, out3: *mut u8) {
     let mut h = D::new();
     h.update(sl(junk, c1));
-    h.reset();
+    Digest::reset(&mut h);
     h.update(sl(msg, len));
     put(out1, &h.finalize());
     let mut g = D::new();
@@ -54,6 +55,11 @@ pub unsafe fn reused<D: Digest>(msg: *const u8, len: usize, junk: *const u8, c1:
     let _ = g.finalize_reset();
     g.update(sl(msg, len));
     put(out2, &g.finalize());
+    let mut k = D::new();
+    Digest::update(&mut k, sl(junk, c1));
+    let _ = digest::FixedOutput::finalize_fixed_reset(&mut k);
+    Digest::update(&mut k, sl(msg, len));
+    put(out3, &Digest::finalize(k));
 }
 
 macro_rules! hash_entries {
@@ -64,7 +70,7 @@ macro_rules! hash_entries {
                 fn $one(msg: *const u8, len: usize, out: *mut [u8; 512]) { one_shot::<$t>(msg, len, out as *mut u8) }
                 fn $split(msg: *const u8, len: usize, c1: usize, c2: usize, out: *mut [u8; 512]) { split3::<$t>(msg, len, c1, c2, out as *mut u8) }
                 fn $clone(msg: *const u8, len: usize, c1: usize, out1: *mut [u8; 512], out2: *mut [u8; 512], out3: *mut [u8; 512]) { cloned::<$t>(msg, len, c1, out1 as *mut u8, out2 as *mut u8, out3 as *mut u8) }
-                fn $reuse(msg: *const u8, len: usize, junk: *const u8, c1: usize, out1: *mut [u8; 512], out2: *mut [u8; 512]) { reused::<$t>(msg, len, junk, c1, out1 as *mut u8, out2 as *mut u8) }
+                fn $reuse(msg: *const u8, len: usize, junk: *const u8, c1: usize, out1: *mut [u8; 512], out2: *mut [u8; 512], out3: *mut [u8; 512]) { reused::<$t>(msg, len, junk, c1, out1 as *mut u8, out2 as *mut u8, out3 as *mut u8) }
             }
         }
     };
@@ -126,6 +132,21 @@ skein_step!(ss1024, h_skein1024_128_step, Skein1024<U128>, 128);
 
 use digest::generic_array::typenum::{U1, U100, U128, U129, U16, U200, U257, U31, U32, U33, U64, U65, U7, U8};
 use skein_hash::{Skein1024, Skein256, Skein512};
+// more than 256 output blocks (the output counter is a 64-bit little-endian block index)
+macro_rules! skein_long {
+    ($modname:ident, $name:ident, $t:ty, $osz:expr) => {
+        pub mod $modname {
+            use super::*;
+            entries! {
+                fn $name(msg: *const u8, len: usize, out: *mut [u8; $osz]) { one_shot::<$t>(msg, len, out as *mut u8) }
+            }
+        }
+    };
+}
+use digest::generic_array::typenum::{Sum, U16384, U32768, U8192};
+skein_long!(sl256, h_skein256_8225, Skein256<Sum<U8192, U33>>, 8256);
+skein_long!(sl512, h_skein512_16449, Skein512<Sum<U16384, U65>>, 16512);
+skein_long!(sl1024, h_skein1024_32897, Skein1024<Sum<U32768, U129>>, 33024);
 hash_entries!(s256_32, Skein256<U32>, h_skein256_32, h_skein256_32_split, h_skein256_32_clone, h_skein256_32_reuse);
 hash_entries!(s256_64, Skein256<U64>, h_skein256_64, h_skein256_64_split, h_skein256_64_clone, h_skein256_64_reuse);
 hash_entries!(s256_7, Skein256<U7>, h_skein256_7, h_skein256_7_split, h_skein256_7_clone, h_skein256_7_reuse);
@@ -272,7 +293,8 @@ pub fn dispatch(name: &str, args: &[String]) -> Option<Vec<String>> {
         .or_else(|| s1024_32::dispatch(name, args)).or_else(|| s1024_64::dispatch(name, args)).or_else(|| s1024_128::dispatch(name, args))
         .or_else(|| s1024_31::dispatch(name, args)).or_else(|| s1024_200::dispatch(name, args)).or_else(|| s1024_257::dispatch(name, args))
         .or_else(|| bs224::dispatch(name, args)).or_else(|| bs256::dispatch(name, args)).or_else(|| bs384::dispatch(name, args)).or_else(|| bs512::dispatch(name, args))
-        .or_else(|| ss256::dispatch(name, args)).or_else(|| ss512::dispatch(name, args)).or_else(|| ss1024::dispatch(name, args));
+        .or_else(|| ss256::dispatch(name, args)).or_else(|| ss512::dispatch(name, args)).or_else(|| ss1024::dispatch(name, args))
+        .or_else(|| sl256::dispatch(name, args)).or_else(|| sl512::dispatch(name, args)).or_else(|| sl1024::dispatch(name, args));
     #[cfg(feature = "x86hashes")]
     let r = r.or_else(|| x86::dispatch(name, args));
     r
